@@ -37,6 +37,13 @@ def _default_datetime_formatter(dt):
     )
 
 
+def _timestamp_microseconds(dt):
+    if dt.utcoffset() is None:
+        dt = dt.astimezone()
+    epoch = datetime_(1970, 1, 1, tzinfo=timezone.utc)
+    return (dt - epoch) // timedelta(microseconds=1)
+
+
 def _format_timezone(dt, *, sep):
     tzinfo = dt.tzinfo or timezone.utc
     offset = tzinfo.utcoffset(dt).total_seconds()
@@ -108,8 +115,8 @@ def _compile_format(spec):
         "Z": ("%s", lambda t, dt: _format_timezone(dt, sep=":")),
         "ZZ": ("%s", lambda t, dt: _format_timezone(dt, sep="")),
         "zz": ("%s", lambda t, dt: (dt.tzinfo or timezone.utc).tzname(dt) or ""),
-        "X": ("%d", lambda t, dt: dt.timestamp()),
-        "x": ("%d", lambda t, dt: int(dt.timestamp() * 1000000 + dt.microsecond)),
+        "X": ("%d", lambda t, dt: _timestamp_microseconds(dt) // 1000000),
+        "x": ("%d", lambda t, dt: _timestamp_microseconds(dt)),
     }
 
     format_string = ""
